@@ -30,7 +30,32 @@ def seg(pid, module, theorems, alg, kind, e2, extra_stage_opts=None):
     return d
 
 
+def rel(module, theorems, monitors, stages=("E4", "E5"), **kw):
+    d = dict(module=module, theorems=theorems, stages=list(stages), oracle_stages=[], monitors=monitors,
+             assumptions=ASSUME_COMMON, n_quick=20000, n_thorough=400000)
+    d.update(kw)
+    return d
+
+
 PROPS = {
+    "C01": seg("C01", "Uniseg.Properties.C01",
+               ["Uniseg.Properties.C01.grapheme_verdicts_eq_gb", "Uniseg.Properties.C01.grapheme_clusters_eq_gb",
+                "Uniseg.Spec.GB.gbBreak_factor", "Uniseg.Cert.Grapheme.valid", "Uniseg.ChainG.fg_isFirstCut", "Uniseg.Chain.gen_chainV"],
+               "gr", "fg,gcc", "g,G"),
+    "C05": rel("Uniseg.Properties.C05",
+               ["Uniseg.Properties.C05.word_partition", "Uniseg.Properties.C05.sentence_partition", "Uniseg.Properties.C05.line_partition",
+                "Uniseg.Properties.C05.grapheme_partition", "Uniseg.Properties.C05.step_partition",
+                "Uniseg.Properties.C05.firstWord_len", "Uniseg.Properties.C05.firstSentence_len", "Uniseg.Properties.C05.firstLineSegment_len",
+                "Uniseg.Properties.C05.firstGraphemeCluster_len", "Uniseg.Properties.C05.step_len", "Uniseg.Properties.C05.empty_zero",
+                "Uniseg.Properties.C05.word_byte_chain", "Uniseg.Properties.C05.step_byte_chain",
+                "Uniseg.Bytes.sizeSum_runesOf", "Uniseg.Bytes.runesOf_drop"],
+               ["C05"], hang_is_violation=True,
+               assumptions=ASSUME_COMMON + ["that segment and rest alias the argument's memory and that the argument is not written is not a Lean theorem: the model's result is an offset; the harness checks pointer identity (unsafe.SliceData), lengths and a copy of the input on every generated case"]),
+    "C10": rel("Uniseg.Properties.C10",
+               ["Uniseg.Properties.C10.fix_vals", "Uniseg.Properties.C10.word_fix", "Uniseg.Properties.C10.sentence_fix", "Uniseg.Properties.C10.line_fix",
+                "Uniseg.Properties.C10.grapheme_fix", "Uniseg.Properties.C10.step_fix", "Uniseg.Properties.C10.sizes", "Uniseg.Properties.C10.search_index_safe",
+                "Uniseg.Utf8.decode_encode", "Uniseg.Utf8.decode_scalar"],
+               ["C10"], hang_is_violation=True),
     "C02": seg("C02", "Uniseg.Properties.C02",
                ["Uniseg.Properties.C02.word_verdicts_eq_wb", "Uniseg.Properties.C02.word_segments_eq_wb", "Uniseg.Properties.C02.fffd_inert",
                 "Uniseg.Spec.WB.wbBreak_factor", "Uniseg.Cert.Word.valid", "Uniseg.Auto.run_agree_start"],
